@@ -1250,13 +1250,18 @@ _lookup(LB* self,
     if (result == NULL) {
         int status;
 
+        /* The call can run arbitrary code, including ``self.changed()``,
+           which releases the caches: keep ours alive until we stored. */
+        Py_INCREF(cache);
         result = PyObject_CallMethodObjArgs(
           OBJECT(self), str_uncached_lookup, required, provided, name, NULL);
         if (result == NULL) {
+            Py_DECREF(cache);
             Py_DECREF(required);
             return NULL;
         }
         status = PyDict_SetItem(cache, key, result);
+        Py_DECREF(cache);
         Py_DECREF(required);
         if (status < 0) {
             Py_DECREF(result);
@@ -1509,13 +1514,17 @@ _lookupAll(LB* self, PyObject* required, PyObject* provided)
     if (result == NULL) {
         int status;
 
+        /* See note in _lookup: keep the cache alive across the call. */
+        Py_INCREF(cache);
         result = PyObject_CallMethodObjArgs(
           OBJECT(self), str_uncached_lookupAll, required, provided, NULL);
         if (result == NULL) {
+            Py_DECREF(cache);
             Py_DECREF(required);
             return NULL;
         }
         status = PyDict_SetItem(cache, required, result);
+        Py_DECREF(cache);
         Py_DECREF(required);
         if (status < 0) {
             Py_DECREF(result);
@@ -1577,13 +1586,17 @@ _subscriptions(LB* self, PyObject* required, PyObject* provided)
     if (result == NULL) {
         int status;
 
+        /* See note in _lookup: keep the cache alive across the call. */
+        Py_INCREF(cache);
         result = PyObject_CallMethodObjArgs(
           OBJECT(self), str_uncached_subscriptions, required, provided, NULL);
         if (result == NULL) {
+            Py_DECREF(cache);
             Py_DECREF(required);
             return NULL;
         }
         status = PyDict_SetItem(cache, required, result);
+        Py_DECREF(cache);
         Py_DECREF(required);
         if (status < 0) {
             Py_DECREF(result);
